@@ -19,7 +19,7 @@ VFX = os.environ.get("VERIF_VFX", "/verif/.cache/vfx-target/release/vfx")
 
 
 # zero-argument `&self` observers of dependency / crate types: modelled as uninterpreted functions of the receiver
-PURE_GETTERS = {"to_be_bytes", "to_le_bytes", "to_bits", "to_bytes", "size", "is_zero", "is_empty", "degree", "is_identity", "is_on_curve", "is_torsion_free", "is_some", "is_none",
+PURE_GETTERS = {"to_be_bytes", "to_le_bytes", "to_bits", "to_bytes", "size", "is_zero", "is_empty", "degree", "is_identity", "is_on_curve", "is_torsion_free", "is_small_order", "is_prime_order", "is_some", "is_none",
                 "max_degree", "constraints", "unwrap"}
 
 
@@ -423,7 +423,7 @@ class Interp:
                     dict.__setitem__(env, n, self.havoc_value(n))
                 for n in _pat_mut_names(st["pat"]):
                     self.mut_names.add(n)
-            for n in sorted(names & self.mut_names):
+            for n in sorted(names & self.mut_names & _maybe_mutated(st)):
                 if n in env and not (st["k"] == "let" and n in _pat_names(st["pat"])):
                     try:
                         set_var(env, n, self.havoc_value(n))
@@ -1179,6 +1179,11 @@ class Interp:
                 self.fail(e, "effects inside any/all over a symbolic collection")
             self.ctx.log = saved
             return VOpaque(m, [recv.sym, body])
+        if m in ("any", "all") and isinstance(recv, (VIter, VArr)) and isinstance(args[0], VClosure):
+            rs = [self.call_closure(args[0], [x]) for x in recv.items]
+            if all(isinstance(r, bool) for r in rs):
+                return any(rs) if m == "any" else all(rs)
+            return VOpaque(m + "_of", [VArr(rs, "vec")])
         if m == "collect" and isinstance(recv, VSymIter):
             return VOpaque("collected", [recv.sym])
         if m == "map" and isinstance(recv, VIter) and isinstance(args[0], VClosure):
@@ -1283,6 +1288,52 @@ class Interp:
             keys.append(f"{last}.{m}")
         keys.append("." + m)
         return keys
+
+
+READONLY_METHODS = {"get_u", "get_v", "get_z", "len", "iter", "clone", "is_empty", "get", "to_bytes", "to_bits", "is_zero", "copied", "cloned",
+                    "first", "last", "contains", "as_slice", "to_vec", "is_identity", "is_on_curve", "invert", "neg", "square", "double",
+                    "unwrap_or", "unwrap"}
+COMPOUND_ASSIGN = {"+=", "-=", "*=", "/=", "%=", "^=", "&=", "|=", "<<=", ">>="}
+
+
+def _base_name(node):
+    while isinstance(node, dict) and node.get("k") in ("index", "field", "paren", "unary", "ref", "try"):
+        node = node["e"]
+    if isinstance(node, dict) and node.get("k") == "path" and len(node.get("segs", [])) == 1:
+        return node["segs"][0]
+    return None
+
+
+def _maybe_mutated(node):
+    """names of locals a statement MAY mutate: assignment targets, `&mut x`, receivers of methods not known to be read-only,
+    anything inside a macro or an unparsed expression.  Plain reads (`x[i]`, `-x[i]`, `f(x)`, `x.get_u()`) do not count."""
+    out = set()
+    if isinstance(node, dict):
+        k = node.get("k")
+        if k == "assign" or (k == "binary" and node.get("op") in COMPOUND_ASSIGN):
+            b = _base_name(node["l"])
+            if b:
+                out.add(b)
+        if k == "ref" and node.get("mut"):
+            b = _base_name(node["e"])
+            if b:
+                out.add(b)
+        if k == "mcall" and node.get("m") not in READONLY_METHODS:
+            b = _base_name(node["recv"])
+            if b:
+                out.add(b)
+        if k == "macro" and "tokens" in node:
+            import re as _re
+            out |= set(_re.findall(r"[A-Za-z_][A-Za-z0-9_]*", node["tokens"]))
+        if k == "other":
+            import re as _re
+            out |= set(_re.findall(r"[A-Za-z_][A-Za-z0-9_]*", node.get("text", "")))
+        for v in node.values():
+            out |= _maybe_mutated(v)
+    elif isinstance(node, list):
+        for v in node:
+            out |= _maybe_mutated(v)
+    return out
 
 
 def _idents(node):
@@ -1582,7 +1633,11 @@ def run_unit(root, unit, contracts, seed=0, perturb=None):
                 a, b = _resolve_ite(a, pcs), _resolve_ite(b, pcs)
             ok, detail, cex = compare(a, b, seed)
             und = False
-            if not ok and pcs:
+            if not ok and (_havoc_names(a) - _havoc_names(b)):
+                # the code side carries a havocked (unknown) value where the contract is exact: unknown, not a violation
+                und = True
+                detail = f"code value depends on statements outside the fragment (havoc {sorted(_havoc_names(a) - _havoc_names(b))}): {detail}"
+            if not ok and pcs and not und:
                 # the path condition may make the two sides coincide: specialise for the predicates we understand
                 sub = {}
                 for c, t in pcs:
@@ -1633,6 +1688,26 @@ def run_unit(root, unit, contracts, seed=0, perturb=None):
 
 
 _STRUCT = object()
+
+
+def _havoc_names(v):
+    import re as _re
+    try:
+        txt = canon(v) if not isinstance(v, (list, tuple)) else " ".join(_havoc_txt(x) for x in v)
+    except Exception:
+        txt = str(v)
+    return set(_re.findall(r"havoc:(\w+)", txt))
+
+
+def _havoc_txt(x):
+    if isinstance(x, str):
+        return x
+    if isinstance(x, (list, tuple)):
+        return " ".join(_havoc_txt(y) for y in x)
+    try:
+        return canon(x)
+    except Exception:
+        return str(x)
 
 
 def _first_diff(a, b):
